@@ -60,7 +60,7 @@ def real_objdump_cases(rnd, tier, prop):
     if prop in ("C09", "C10"):
         obj = objdump.assemble(objdump.template_source(rnd, sz["templates"]), "tmpl")
         texts.append(("assembled AT&T templates", objdump.objdump_text(obj)))
-    if prop in ("C08", "C10"):
+    if prop in ("C08", "C09", "C10"):
         # segment overrides with an index, AVX-512 broadcast / mask decorations, x87 stack registers, string
         # instructions with two memory operands, prefixes, indirect branches, long nops ...
         obj = objdump.assemble(objdump.template_source(rnd, sz["templates"] // 2, extended=True), "tmplx")
@@ -134,6 +134,10 @@ def settle(report, prop, cases, verdicts, obs_by_case, part):
         tags = v.split("|")[1:]
         if clause.startswith("MACHINERY"):
             raise MachineryError(f"{prop} part {part}: {v} on {c['lines'][:3]}")
+        # clauses that hold in addition to the first one (|also:<clause>): each check looks for its own
+        mine = [x for x in [clause] + [t[5:] for t in tags if t.startswith("also:")] if x.startswith(own)]
+        if mine:
+            clause = mine[0]
         if not clause.startswith(own):
             report.notes.append(f"part {part}: case {n} rejected with {clause}, which belongs to another property")
             continue
